@@ -75,6 +75,12 @@ impl<'a> LexiconSet<'a> {
         Ok(())
     }
 
+    /// Number of parts of speech defined by the system dictionary itself
+    /// (without ones added by plugins or user dictionaries)
+    pub fn num_system_pos(&self) -> usize {
+        self.num_system_pos
+    }
+
     /// Returns if dictionary capacity is full
     pub fn is_full(&self) -> bool {
         self.lexicons.len() >= MAX_DICTIONARIES
